@@ -358,3 +358,7 @@ U_RAD = Unit(P + '/compute_far_field-radiation-sum', [Q], t_radiation, SCH,
                        Canary('phi-unit-vector-swapped', Q, _PhiHatSwapped, [P + '/compute_far_field[radiation sum]/E(phi)'])])
 
 UNITS = [U_TAIL, U_SCALE, U_RAD]
+
+# compute_far_field keeps nothing between calls but its declared results (frame clause stated with C14): the table of a
+# request is a function of (model, currents, request) -- without it the clauses above would only hold for the first request
+EXTRA_UNITS = [('contracts.C14', 'U_ASSIGNS')]
